@@ -42,7 +42,7 @@ case_strategy = st.fixed_dictionaries({
     "grid": st.integers(1, 16), "boxmul": f(1, 6),
     "cores": st.integers(1, 8), "stripes_mul": f(0, 2),
     "mask": st.sampled_from([True, True, True, False]),
-    "relation": st.sampled_from(["shift", "shift", "scale", "none"]),
+    "relation": st.sampled_from(["shift", "shift", "scale", "reencode", "none"]),
     "shift": st.sampled_from([1.0, 100.0, -1000.0, 1e4]),
     "k": st.sampled_from([-3.0, -1.0, 0.5, 2.0, 7.0]),
     "files": st.sampled_from(["none", "none", "plain", "compressed"]),
@@ -217,15 +217,23 @@ def check_case(c):
             res.label("files-" + files)
         # ---- metamorphic relations (continuous-valued data only)
         if c["kind"] != "constant" and c["relation"] != "none":
+            c2 = c
+            path2 = os.path.join(d, "im2.fits")
             if c["relation"] == "shift":
                 cc = c["shift"]
                 img2 = img + cc
-            else:
+            elif c["relation"] == "scale":
                 k = c["k"]
                 img2 = img * k
-            path2 = os.path.join(d, "im2.fits")
-            plane2, _ = write_image(c, img2, path2)
-            out2 = run_bane(path2, c, ci, grid, box, cores, stripes)
+            else:
+                # the same physical plane, stored differently (other BSCALE, other dimensionality) under the SAME file
+                # name: the maps must not change (also exercises anything remembered about a path between calls)
+                img2 = img
+                c2 = dict(c, bscale={None: 4.0, 2.0: None, 0.5: -3.0, -1.5: 2.0}.get(c["bscale"], None),
+                          ndim={2: 3, 3: 4, 4: 2}[c["ndim"]], planes=2)
+                path2 = path
+            plane2, ci2 = write_image(c2, img2, path2)
+            out2 = run_bane(path2, c2, ci2, grid, box, cores, stripes)
             b2, r2 = (np.asarray(a, dtype=np.float64) for a in out2)
             both = np.isfinite(bkg) & np.isfinite(b2)
             if not np.array_equal(np.isfinite(bkg), np.isfinite(b2)):
@@ -243,6 +251,13 @@ def check_case(c):
                 if not dr <= t:
                     res.bad("shift-rms", "%s: adding %g changes the noise by up to %.3g (noise ~%.3g)" % (
                         what, cc, dr, float(np.nanmedian(rms))), **tags)
+            elif c["relation"] == "reencode":
+                tb = 1e-5 * scale
+                db = float(np.max(np.abs(b2 - bkg)[both])) if both.any() else 0.0
+                dr = float(np.max(np.abs(r2 - rms)[both])) if both.any() else 0.0
+                if not (db <= tb and dr <= tb):
+                    res.bad("reencode", "%s: the same image stored with BSCALE=%r as %d-D under the same file name gives maps "
+                            "differing by %.3g (bkg) / %.3g (rms)" % (what, c2["bscale"], c2["ndim"], db, dr), **tags)
             else:
                 tb = 1e-5 * abs(k) * scale
                 db = float(np.max(np.abs(b2 - k * bkg)[both])) if both.any() else 0.0
